@@ -433,6 +433,9 @@ func runCase(c *Case) (impl, model, spec string) {
 		if strings.HasPrefix(c.Kind, "hashtype:") {
 			key, src = "spec-vs-hashtype-rule", "the rule what a hash type commits to (every byte is a valid ECDSA hash type without STRICTENC; bits 0..4: NONE / SINGLE / else ALL; bit 7: ANYONECANPAY)"
 		}
+		if strings.HasPrefix(c.Kind, "fad:") || strings.HasPrefix(c.Kind, "limit:") || strings.HasPrefix(c.Kind, "nullfail:") {
+			key, src = "spec-vs-corpus-rule", "the rule written down next to this corpus case (go/cmd/c01/sizes.go: FindAndDelete removes exactly the canonical push; no script-size limit in tapscript; NULLFAIL = a failed check with a non-empty signature)"
+		}
 		if (c.Expect == "OK") != specOK {
 			r.TieFail(key, fmt.Sprintf("the reference semantics gives %s where %s demands %s (%s)", spec, src, c.Expect, c.Note), c)
 		} else {
@@ -531,6 +534,10 @@ func runEval(e *EvalCase) {
 	m := dialogue(sb.String(), c, tx, 0, 2000)
 	oracleTime[family(e.Kind)] += time.Since(t0)
 	model, spec := m["model"], m["spec"]
+	if m["class"] == "" || model == "" || spec == "" {
+		fmt.Fprintln(os.Stderr, "oracle reply to eval lacks model/spec/class:", m)
+		os.Exit(3)
+	}
 	r.Eval(family(e.Kind), sb.String())
 	if strings.HasPrefix(impl, "ok") {
 		r.Hit("eval-impl:ok")
@@ -550,22 +557,15 @@ func runEval(e *EvalCase) {
 	}
 	if impl != specN {
 		// not the observable of the property (the verdict of VerifyTxScript is), so a difference here is reported
-		// through the tie channel unless it is the documented CLTV/CSV policy difference
-		if isCltvCsvNopDifference(e, impl, specN) {
+		// through the tie channel unless it is the documented CLTV/CSV policy difference. The class is the ORACLE's
+		// (Oracle/C01.lean doEval: the reference re-run with the single quirk `discourageCltvCsv` gives exactly the
+		// model's = implementation's result), not a guess from the script bytes
+		if impl == model && knownClass[m["class"]] && m["class"] == "cltv-csv-discouraged-nop" {
 			r.PropFail("cltv-csv-discouraged-nop", "OP_CHECKLOCKTIMEVERIFY/OP_CHECKSEQUENCEVERIFY with their flag off and DISCOURAGE_UPGRADABLE_NOPS on: gocoin fails the script, current Bitcoin Core treats them as NOPs (policy-only flag)", e)
 		} else {
 			r.TieFail("spec-vs-impl-eval:"+family(e.Kind), fmt.Sprintf("evalScript: reference semantics %s, implementation %s", trunc(spec), trunc(impl)), e)
 		}
 	}
-}
-
-func isCltvCsvNopDifference(e *EvalCase, impl, spec string) bool {
-	if impl != "fail" || e.Flags&script.VER_BLOCK_OPS == 0 {
-		return false
-	}
-	hasB1 := e.Flags&script.VER_CLTV == 0 && strings.Contains(string(e.Script), "\xb1")
-	hasB2 := e.Flags&script.VER_CSV == 0 && strings.Contains(string(e.Script), "\xb2")
-	return hasB1 || hasB2
 }
 
 func replay(path string) {
